@@ -51,6 +51,13 @@ type WField struct {
 	ErrKind string `json:"err_kind,omitempty"` // ptr | value | nilslice | nilmap : dynamic kind of the Go error value (nil*: a nil slice / map of an error type, next to a value; Err is then MsgNilSliceErr / MsgNilMapErr)
 	NilErr  bool   `json:"nil_err,omitempty"`  // success, but the error result is a typed nil pointer
 	V       *WVal  `json:"v,omitempty"`        // the resolved value when Err == ""
+	// Share = g > 0 (mode promise only): the invocation returns the ResolvePromise channel of group g
+	// — one buffered channel handed to every invocation of the group, as a memoising loader does, on
+	// which the idle handler sends one result per consumer. Whichever consumer polls first takes the
+	// first result, so the members of a group must have the same outcome, and the per-promise
+	// correspondence with the model does not apply (model-free oracles only; C11: harness/cmd/c11,
+	// shared()).
+	Share int `json:"share,omitempty"`
 }
 
 // WVal is a resolved Go value, described by how completeValue will treat it.
@@ -80,8 +87,48 @@ type Case struct {
 	// returned. Only the model-free oracles apply (C11: harness/cmd/c11, noIdle).
 	NoIdle bool `json:"no_idle,omitempty"`
 	// CancelAt = k > 0: the k-th resolver called cancels the request's context (see cancel.go).
-	CancelAt int    `json:"cancel_at,omitempty"`
-	Note     string `json:"note,omitempty"`
+	CancelAt int `json:"cancel_at,omitempty"`
+	// ExactMasks (C11, extended model ApiFu/C11/Ext.lean): call k of the idle handler delivers
+	// exactly the outstanding promises mask k selects — none when it selects none —, everything once
+	// the schedule is used up; Rounds counts every call.
+	ExactMasks bool `json:"exact_masks,omitempty"`
+	// Subscription: the operation is a subscription and graphql.Execute runs one source event of it
+	// (executeSubscriptionEvent: the root value is the event); the model is the query executor.
+	// One root field, plain presentation (the validator counts every root selection of a subscription).
+	Subscription bool `json:"subscription,omitempty"`
+	// PanicAt = k > 0: the k-th resolver called panics (after its start event was logged).
+	PanicAt int    `json:"panic_at,omitempty"`
+	Note    string `json:"note,omitempty"`
+}
+
+// PanicText is what the PanicAt-th resolver panics with.
+const PanicText = "harness: resolver panic"
+
+// SelectExact is the schedule semantics of the extended C11 model: bit j selects position j, an
+// empty selection stays empty.
+func SelectExact(mask uint64, n int) []int {
+	var out []int
+	for j := 0; j < n && j < 62; j++ {
+		if mask>>uint(j)&1 == 1 {
+			out = append(out, j)
+		}
+	}
+	return out
+}
+
+// ModelLineX is the request line of the extended C11 model (`runx`, lean/ApiFu/C11/DriverExt.lean).
+func (c *Case) ModelLineX(fuel int) string {
+	AssignTypeNames(c.Shape)
+	var sched []hx.Sexp
+	for _, m := range c.Schedule {
+		sched = append(sched, hx.A(strconv.FormatUint(m&(1<<62-1), 10)))
+	}
+	var sels []hx.Sexp
+	for _, n := range c.Selections() {
+		sels = append(sels, nodeSexp(n))
+	}
+	return hx.N("runx", hx.L(sels...), hx.A(c.Shape.TypeName), hx.L(worldFields(c.Shape, c.World)...), hx.L(sched...),
+		hx.A(strconv.Itoa(fuel)), hx.A(strconv.Itoa(c.PanicAt))).String()
 }
 
 const AllMask = ^uint64(0)
@@ -252,6 +299,9 @@ func (c *Case) ShapeKey() string {
 	if c.Mutation {
 		b.WriteString("M")
 	}
+	if c.Subscription {
+		b.WriteString("S")
+	}
 	if c.Syntax != 0 {
 		b.WriteString(strconv.FormatUint(c.Syntax, 10) + "/")
 	}
@@ -383,6 +433,9 @@ func (c *Case) ModelLine() string {
 	}
 	if PlanLines {
 		return hx.N("run", hx.A(kind), hx.L(fieldsSexp(c.Shape, c.World)...), hx.L(sched...)).String()
+	}
+	if c.ConcreteLine() {
+		return c.modelLineC(kind, sched)
 	}
 	var sels []hx.Sexp
 	for _, n := range c.Selections() {
